@@ -84,6 +84,80 @@ RAWDB_RULE = (
     "pending-hole promotion, hole reuse, hole punch, reopen, refusal; distinct = distinct branch traces (sha256 of the per-request tag list)"
 )
 
+
+# --------------------------------------------------------------------------------------------
+# vec observation helpers
+
+
+def vsec(body):
+    parts = body.split(" | ")
+    d = {"out": parts[0]}
+    for p in parts[1:]:
+        d[p[:1]] = p[2:] if len(p) > 1 else ""
+    return d
+
+
+def proj_vec(body):
+    """everything but the C20 flag; contents are not comparable while stored_len > real_stored_len"""
+    d = vsec(body)
+    L = d.get("L", "").split()
+    items = d.get("I", "")
+    if len(L) >= 3 and L[1].isdigit() and L[2].isdigit() and int(L[1]) > int(L[2]):
+        items = "*"
+    return " | ".join([d["out"], d.get("L", ""), d.get("H", ""), items, d.get("C", ""), d.get("P", "")])
+
+
+def vec_features(case):
+    trace, kinds = [], set()
+    prev = None
+    head = case["ops"][0] if case["ops"] else ""
+    fmt = next((w[4:] for w in head.split() if w.startswith("fmt=")), "?")
+    for op, obs in zip(case["ops"][1:], case["impl"][1:]):
+        if " | " not in obs:
+            continue
+        d = vsec(split_obs(obs)[0])
+        w = op.split()[0]
+        tags = [w, d["out"].split(":")[0]]
+        L = d.get("L", "").split()
+        if len(L) >= 4:
+            ln, st, real = int(L[0]), int(L[1]), int(L[2])
+            if st < real:
+                tags.append("trunc-pending")
+            if st > real:
+                tags.append("expanded")
+            if ln > st:
+                tags.append("buffered")
+        if d.get("H"):
+            tags.append("holes")
+        pages = d.get("P", "").split()
+        npg = len([p for p in pages if ":" in p])
+        if npg >= 2:
+            tags.append("multipage")
+        if w in ("write", "flush", "commit", "swrite") and prev is not None and prev.get("P") != d.get("P"):
+            tags.append("pages-rewritten")
+        if w in ("rollback", "rollback_before") and d["out"].startswith("ok"):
+            tags.append("rolled-back")
+        if d["out"].startswith("err"):
+            tags.append("refuse")
+        if w == "reimport":
+            tags.append("reimported")
+        if w in ("fdel", "ftrunc", "fpatch"):
+            tags.append("fault")
+        kinds.update(t for t in tags[2:])
+        trace.append(",".join(tags))
+        prev = d
+    trace.append(fmt)
+    return trace, kinds
+
+
+VEC_RULE = (
+    "histories generated by harness/src/vec_engine.rs over 14 format×type combinations (BytesVec u16/u64/u128/f32, ZeroCopyVec u32/u64, "
+    "PcoVec u32/u64/i64/f64, LZ4Vec u64/u128, ZstdVec u16/u32), values incl. 0, MAX, sign boundary and random bit patterns, bulk pushes of "
+    "page-1/page/page+1/2·page+3 elements; a case is non-trivial when its trace shows at least two different kinds among: buffered elements, "
+    "pending truncation, expanded (stored_len > real), holes, multi-page index, page index rewritten, successful rollback, refusal, re-import, "
+    "fault; distinct = distinct per-request tag traces"
+)
+
 # --------------------------------------------------------------------------------------------
 
 TRUST_COMMON = [
@@ -96,6 +170,9 @@ ENGINES = [
     {"name": "rawdb", "path": "harness/src/rawdb_engine.rs + lean/Driver/RawdbProto.lean", "serves_properties": ["C01", "C02", "C13"],
      "kind_free_text": "generates region-operation histories, runs them on the real rawdb crate in-process and on the compiled Lean model, compares the projected state after every request; model-free oracles (reference byte vectors, extent invariants, state-unchanged-after-refusal) on the implementation"},
 ]
+
+ENGINES.append({"name": "vec", "path": "harness/src/vec_engine.rs + lean/Driver/VecProto.lean", "serves_properties": ["C03", "C04", "C07", "C13", "C16"],
+     "kind_free_text": "generates vector histories (plain edits, commit/rollback, damaged change records, refusals), runs them on real BytesVec/ZeroCopyVec/PcoVec/LZ4Vec/ZstdVec and on the compiled Lean model, compares length, stored/real length, stamp, deleted slots, contents hash, change directory and page index after every request; model-free oracles: reference vector, committed-state stack, page-index well-formedness, unchanged-after-refusal"})
 
 NOT_CLAIMED = {}
 
@@ -124,11 +201,60 @@ PROPS = {
         level_note="Trusted: Lean kernel + standard axioms; hand-written model (Model/Rawdb.lean) tied to /repo by differential run + extractor; the guarded read-only Layout accessors. Modelled rather than verified: layout.rs, region.rs write_with, lib.rs create/set_min_len/flush.",
         technique="Lean 4 proof of allocator invariants (induction over the pending-hole list) + full-layout lock-step correspondence + independent invariant checker on the real layout",
     ),
+    "C03": dict(
+        lean="AnyDB.Props.C03",
+        runs=[
+            Run("vec", "plain", ["--mode", "plain"], (168, 50), (2800, 160), proj_vec, ["C03", "panic"], vec_features),
+            Run("vec", "refusals", ["--mode", "refusals"], (56, 40), (700, 100), proj_vec, ["C03", "panic"], vec_features),
+        ],
+        rule=VEC_RULE,
+        assumptions=["pco / lz4_flex / zstd round-trip every page (sampled here, never proved)", "regions behave like independent byte vectors (C01)"],
+        level_text="Lean 4 theorems over the executable model of the raw and compressed vectors (Model/Vec.lean): push appends exactly one element and touches no other index; an accepted update shows the new value at its index — stored, buffered or previously deleted — and touches no other; delete hides exactly its index; truncate cuts the length to min(n, len) for both kinds; a checked push at the wrong index is refused with the state unchanged; stamps change only through stamped writes. The refinement of write() (three regimes / overlay), reset and re-import to the reference vector is validated by the lock-step correspondence: 14 real format×type vectors = compiled model = independent reference list after every request; their Lean refinement theorems are not finished (named in Props/C03.lean).",
+        level_note="Trusted: Lean kernel + standard axioms; hand-written model tied to /repo by the differential run; compressor libraries; harness glue. Two defects of the pinned tree found by this check were repaired by fix: commits (update of a deleted buffered element; compressed reset+write left the stored pages) — known_findings.json.",
+        technique="Lean 4 proof of the per-operation laws of the vector model + lock-step correspondence against real vectors of all five formats and a reference-list oracle",
+    ),
+    "C04": dict(
+        lean="AnyDB.Props.C04",
+        runs=[
+            Run("vec", "rollback", ["--mode", "rollback"], (196, 50), (3000, 140), proj_vec, ["C04", "C16", "panic"], vec_features),
+        ],
+        rule=VEC_RULE,
+        assumptions=["pco / lz4_flex / zstd round-trip every page", "the change directory is only modified by the vector itself"],
+        level_text="Lean 4 theorems: after any undo the restored state is the baseline of the next change record (C04_baseline: previous stored length = stored length, previous buffer = buffer, stamp = recorded stamp); for compressed formats, whatever mixture of disk and buffer currently holds the logical contents L, undoing a record yields exactly L.take(ts) ++ truncated ++ previous buffer (C04_comp_undo_logical), so consecutive undos compose, and the logical stored length never exceeds the real one afterwards; rollback reads only the record filed under the current stamp. The end-to-end statement over commit histories (all formats, retention 1/2/3/10, continuations after rollback incl. re-import) is validated by the correspondence against a stack-of-committed-states oracle. Raw-format undo (overlay map) is covered by the correspondence only.",
+        level_note="Trusted: Lean kernel + standard axioms; hand-written model; harness. The pinned tree violated C04 in three ways (bare rollback() left a stale baseline; compressed chained rollback across a truncating commit; raw write after a rolled-back truncation failed and lost the buffer): all three repaired by fix: commits, listed as fixed in known_findings.json.",
+        technique="Lean 4 proof (list algebra of the undo on the logical contents) + lock-step correspondence with a committed-state-stack oracle",
+    ),
+    "C07": dict(
+        lean="AnyDB.Props.C07",
+        runs=[
+            Run("vec", "plain", ["--mode", "plain"], (168, 50), (2800, 160), proj_vec, ["C07", "C03", "panic"], vec_features),
+            Run("vec", "rollback", ["--mode", "rollback"], (70, 40), (1000, 120), proj_vec, ["C07", "panic"], vec_features),
+        ],
+        rule=VEC_RULE,
+        assumptions=["pco / lz4_flex / zstd round-trip every page bit-exactly (sampled on extreme integers and float bit patterns incl. NaN payloads, never proved)"],
+        level_text="Lean 4 theorems for every page list, chunking and compressor answer: cutting values into pages loses and reorders nothing (C07_split_concat), every page but the last is full and none is empty or over-full (C07_split_sizes/_full), a page is raw exactly when it is not full and then occupies values·size bytes (C07_enc_flags), freshly laid-out pages form a gap-free run (C07_build_chained), the page list after the general and after the fast path of write() stays a gap-free run from the header (C07_write_chained, C07_fast_chained), decoding after write returns kept values ++ written values (C07_lossless_pages), and Pages::flush makes the index region equal the in-memory index (C07_flush_sync). The real page-index region is compared entry by entry with the model after every write and checked by an independent well-formedness checker; contents are compared bit-exactly.",
+        level_note="Trusted: Lean kernel + standard axioms; hand-written model; the compressed size of a full page is an input of the model (taken from the real index); compressor round trip assumed.",
+        technique="Lean 4 proof of the page-index invariant (induction over chunks/pages) + lock-step comparison of the real page-index region + independent invariant checker",
+    ),
+    "C16": dict(
+        lean="AnyDB.Props.C16",
+        runs=[
+            Run("vec", "faults", ["--mode", "faults"], (196, 50), (3000, 140), proj_vec, ["C16", "C13", "panic"], vec_features),
+            Run("vec", "rollback", ["--mode", "rollback"], (84, 50), (1000, 140), proj_vec, ["C16", "panic"], vec_features),
+        ],
+        rule=VEC_RULE + "; the fault stream deletes the record of the current stamp, truncates it (0, 31, len-1, random offset) or overwrites one of its five length fields with an out-of-range value, then rolls back",
+        assumptions=["single-file faults on the change directory only; a changed value byte inside a record is outside the fault model (no checksums)"],
+        level_text="Lean 4 theorems: with retention k≥1 the directory holds at most k records after a commit, none at or above the new stamp except the new one, and only records that were there before (C16_prune_*); a rollback whose record is missing, or does not parse — truncated at ANY byte offset, counts that overflow or exceed the input — fails and leaves the ENTIRE model state unchanged (C16_missing_refused, C16_unparsable_refused, C16_parse_short, C16_count_guard: counts are checked against the remaining input before anything is read or allocated); a record whose redundant length fields disagree is refused (C16_prevStoredLen_checked). Tied to the code by the fault stream: same answer kind, same state, same directory listing on the real vectors and the model, plus oracles: err ⇒ unchanged; success over a damaged record ⇒ contents are a committed state; retention window respected.",
+        level_note="Trusted: Lean kernel + standard axioms; hand-written model; harness. F11 (record with prev_stored_len overwritten was applied; SIGSEGV on the real code) was found here and repaired by a fix: commit.",
+        technique="Lean 4 proof over the change-record parser and retention rule + fault-injection correspondence (deleted / truncated / length-field-damaged records)",
+    ),
     "C13": dict(
         lean="AnyDB.Props.C13",
         runs=[
             Run("rawdb", "refusals", ["--malformed"], (200, 40), (3000, 120), proj_state, ["C13", "panic"], rawdb_features),
             Run("rawdb", "held", ["--malformed", "--held"], (60, 20), (600, 60), proj_state, ["C13", "panic"], rawdb_features, clean=False),
+            Run("vec", "vec-refusals", ["--mode", "refusals"], (84, 40), (1400, 100), proj_vec, ["C13", "panic"], vec_features),
+            Run("vec", "vec-faults", ["--mode", "faults"], (84, 40), (1400, 100), proj_vec, ["C13", "panic"], vec_features),
         ],
         rule=RAWDB_RULE + "; about one request in four is a refusal chosen from the current state; the 'held' stream ends each case with a removal while an extra handle is alive",
         assumptions=["reference counts are a run-time notion: the model takes `extra handle alive` as an input of remove"],
